@@ -23,6 +23,13 @@
      the end of the task as C25 requires it (UnlockFirst = TRUE):
        UnlockF     drop(net_reporter)
        SendDoneF   run_done.send(()).await
+   Growth beyond C25 (WithMap = TRUE; spec only, no hook events yet):
+     RemoveRelay / InsertRelay   Socket::remove_relay / insert_relay: the relay map changes and the Actor
+                   schedules a run (handle_relay_map_change -> re_stun(RelayMapChange))
+     a run started while the relay map is empty, or after Close, returns from
+     DirectAddrUpdateState::run before spawning a task: the guard is dropped at once, no done
+     signal is sent (SkipRun below); Close = the shutdown token is cancelled (a probe in flight
+     ends early, the task still sends its done signal).
    The pinned code's order lets the Actor react to the done signal while the lock is still
    held: try_run misses, and a queued update stays queued with nothing left to trigger it --
    named deviation "C25_done_before_unlock".
@@ -32,43 +39,67 @@
    really happened. *)
 EXTENDS Naturals, Sequences, TLC, Json
 CONSTANTS MaxReq,       \* bound on update requests
+          WithMap,      \* include relay-map changes and shutdown (growth)
           UnlockFirst,  \* TRUE: guard dropped before the done signal (required); FALSE: code as written
           KeepHist
 VARIABLES lock, want, task, doneq, tail, nreq, runs,
           active,       \* ghost: runs that started and have not released the lock
+          mapEmpty,     \* the relay map is empty
+          closing,      \* the shutdown token is cancelled
+          skipped,      \* ghost: runs that returned before spawning a task
           hist
-vars == <<lock, want, task, doneq, tail, nreq, runs, active, hist>>
+vars == <<lock, want, task, doneq, tail, nreq, runs, active, mapEmpty, closing, skipped, hist>>
+env == <<mapEmpty, closing>>
 
 Log(op) == hist' = IF KeepHist THEN Append(hist, op) ELSE hist
 
 Init == /\ lock = "free" /\ want = FALSE /\ task = "none" /\ doneq = 0 /\ tail = 0
         /\ nreq = 0 /\ runs = 0 /\ active = 0 /\ hist = <<>>
+        /\ mapEmpty = FALSE /\ closing = FALSE /\ skipped = 0
 
 \* DirectAddrUpdateState::run with the guard just obtained
-StartRun == lock' = "held" /\ task' = "probing" /\ runs' = runs + 1 /\ active' = active + 1
+\* (with an empty relay map or while shutting down it returns before spawning: guard dropped at once)
+StartRunIn(empty) ==
+  IF empty \/ closing
+    THEN skipped' = skipped + 1 /\ UNCHANGED <<lock, task, runs, active>>
+    ELSE lock' = "held" /\ task' = "probing" /\ runs' = runs + 1 /\ active' = active + 1 /\ UNCHANGED skipped
+StartRun == StartRunIn(mapEmpty)
+NoRun == UNCHANGED <<lock, task, runs, active, skipped>>
 
 ScheduleRun == /\ nreq < MaxReq /\ nreq' = nreq + 1
                /\ IF lock = "free" THEN StartRun /\ UNCHANGED want
-                                   ELSE want' = TRUE /\ UNCHANGED <<lock, task, runs, active>>
-               /\ UNCHANGED <<doneq, tail>> /\ Log("req")
+                                   ELSE want' = TRUE /\ NoRun
+               /\ UNCHANGED <<doneq, tail, env>> /\ Log("req")
+
+\* Socket::remove_relay / insert_relay followed by the Actor's handle_relay_map_change
+MapChange(empty) ==
+  /\ WithMap /\ nreq < MaxReq /\ nreq' = nreq + 1 /\ mapEmpty' = empty
+  /\ IF lock = "free" THEN StartRunIn(empty) /\ UNCHANGED want
+                      ELSE want' = TRUE /\ NoRun
+  /\ UNCHANGED <<doneq, tail, closing>> /\ Log(IF empty THEN "remove_relay" ELSE "insert_relay")
+RemoveRelay == MapChange(TRUE)
+InsertRelay == MapChange(FALSE)
+\* the socket starts closing: shutdown token cancelled
+Close == /\ WithMap /\ ~closing /\ closing' = TRUE
+         /\ UNCHANGED <<lock, want, task, doneq, tail, nreq, runs, active, mapEmpty, skipped>> /\ Log("close")
 
 OnDone == /\ doneq > 0 /\ doneq' = doneq - 1
           /\ IF lock = "free" /\ want THEN StartRun /\ want' = FALSE
-                                      ELSE UNCHANGED <<lock, want, task, runs, active>>
-          /\ UNCHANGED <<tail, nreq>> /\ Log("on_done")
+                                      ELSE UNCHANGED want /\ NoRun
+          /\ UNCHANGED <<tail, nreq, env>> /\ Log("on_done")
 
 Probe == /\ task = "probing" /\ task' = "stored"
-         /\ UNCHANGED <<lock, want, doneq, tail, nreq, runs, active>> /\ Log("probe")
+         /\ UNCHANGED <<lock, want, doneq, tail, nreq, runs, active, env, skipped>> /\ Log("probe")
 
 SendDoneA == /\ task = "stored" /\ task' = "signalled" /\ doneq' = doneq + 1
-             /\ UNCHANGED <<lock, want, tail, nreq, runs, active>> /\ Log("send_done")
+             /\ UNCHANGED <<lock, want, tail, nreq, runs, active, env, skipped>> /\ Log("send_done")
 UnlockA   == /\ task = "signalled" /\ task' = "none" /\ lock' = "free" /\ active' = active - 1
-             /\ UNCHANGED <<want, doneq, tail, nreq, runs>> /\ Log("unlock")
+             /\ UNCHANGED <<want, doneq, tail, nreq, runs, env, skipped>> /\ Log("unlock")
 
 UnlockF   == /\ task = "stored" /\ task' = "none" /\ lock' = "free" /\ active' = active - 1 /\ tail' = tail + 1
-             /\ UNCHANGED <<want, doneq, nreq, runs>> /\ Log("unlock")
+             /\ UNCHANGED <<want, doneq, nreq, runs, env, skipped>> /\ Log("unlock")
 SendDoneF == /\ tail > 0 /\ tail' = tail - 1 /\ doneq' = doneq + 1
-             /\ UNCHANGED <<lock, want, task, nreq, runs, active>> /\ Log("send_done")
+             /\ UNCHANGED <<lock, want, task, nreq, runs, active, env, skipped>> /\ Log("send_done")
 
 NextCode  == ScheduleRun \/ OnDone \/ Probe \/ SendDoneA \/ UnlockA
 NextFixed == ScheduleRun \/ OnDone \/ Probe \/ UnlockF \/ SendDoneF
@@ -76,6 +107,9 @@ FairCode  == WF_vars(OnDone) /\ WF_vars(Probe) /\ WF_vars(SendDoneA) /\ WF_vars(
 FairFixed == WF_vars(OnDone) /\ WF_vars(Probe) /\ WF_vars(SendDoneF) /\ WF_vars(UnlockF)
 SpecCode  == Init /\ [][NextCode]_vars /\ FairCode        \* use with UnlockFirst = FALSE
 SpecFixed == Init /\ [][NextFixed]_vars /\ FairFixed      \* use with UnlockFirst = TRUE
+\* growth: relay-map changes and shutdown on top of the required design
+NextFixedMap == NextFixed \/ RemoveRelay \/ InsertRelay \/ Close
+SpecFixedMap == Init /\ [][NextFixedMap]_vars /\ FairFixed
 
 ---------------------------------------------------------------------------
 (* C25 *)
@@ -90,6 +124,9 @@ NoStuckWant == ~(want /\ Quiescent)
 WantLeadsToRun == want ~> ~want
 TypeOK == /\ lock \in {"free", "held"} /\ want \in BOOLEAN /\ doneq \in Nat /\ tail \in Nat
           /\ task \in {"none", "probing", "stored", "signalled"}
+          /\ mapEmpty \in BOOLEAN /\ closing \in BOOLEAN /\ skipped \in Nat
+\* a run that returns before spawning never leaves the lock held or a signal pending
+SkipLeavesNothing == [][skipped' # skipped => (lock' = lock /\ doneq' <= doneq /\ task' = task)]_vars
 
 \* word generator: complete words (nothing in flight any more)
 Emit == (KeepHist /\ hist # <<>> /\ Quiescent) =>
